@@ -1238,6 +1238,23 @@ public:
     RLBOX_UNUSED(example_unsandboxed_ptr);
 
     if_constexpr_named(
+      cond0, detail::rlbox_is_wrapper_v<std::remove_cv_t<T_Rhs>>)
+    {
+      if_constexpr_named(
+        subcond0,
+        !std::is_same_v<
+          T_Sbx,
+          detail::rlbox_get_wrapper_sandbox_t<std::remove_cv_t<T_Rhs>>>)
+      {
+        rlbox_detail_static_fail_because(
+          cond0 && subcond0,
+          "Assigning wrapped data that belongs to a different sandbox type. "
+          "Unwrap the data with copy_and_verify or other unwrapping APIs "
+          "first.");
+      }
+    }
+
+    if_constexpr_named(
       cond1, std::is_same_v<std::remove_const_t<T_Rhs>, std::nullptr_t>)
     {
       static_assert(std::is_pointer_v<T>,
